@@ -250,6 +250,29 @@ func (s LWs) Close() (err error) {
 	return
 }
 
+// notifyLevel tells the severity of the coming record to every
+// destination that implements LevelSettable. The writer found for a
+// level is a list (LWs) whose members may be user writers wrapped by
+// logwr, so the test has to look at the members and through the wrapper.
+func notifyLevel(w LogWriter, lvl Level) {
+	switch x := w.(type) {
+	case LWs:
+		for _, m := range x {
+			if m != nil {
+				notifyLevel(m, lvl)
+			}
+		}
+	case *logwr:
+		if ls, ok := x.Writer.(LevelSettable); ok {
+			ls.SetLevel(lvl)
+		}
+	default:
+		if ls, ok := w.(LevelSettable); ok {
+			ls.SetLevel(lvl)
+		}
+	}
+}
+
 func (s LWs) Write(p []byte) (n int, err error) {
 	// TO/DO implement me
 	// /panic("implement me")
